@@ -168,6 +168,8 @@ def run(chk):
     ob_token_helpers(chk, P)
     ob_block_structure(chk, P, 3 if chk.tier == 'quick' else 4)
     ob_stdlib_blocks(chk, P, 3 if chk.tier == 'quick' else 4)
+    ob_include_arguments(chk, P, 5 if chk.tier == 'quick' else 6)
+    ob_invalid_token_text(chk, P)
     chk.trusted |= {'pest implements PEG semantics as documented', 'pegsmt encoder'}
 
 
@@ -324,14 +326,14 @@ STDLIB_BLOCKS = [
 
 def blocks_reference(kinds, inner_names):
     """mandatory outcomes for a stream that starts with the block's start tag: 'err' (must be rejected), 'ok' (must be accepted unless a stub rejects), None (either)"""
-    if any(k in ('invalid', 'unknown', 'end_arg') for k in kinds): return 'err'      # every element is parsed (no comment/raw here), so these always surface
+    if any(k in ('invalid', 'unknown', 'end_arg') or k.endswith('_arg') for k in kinds): return 'err'      # every element is parsed (no comment/raw here), so these always surface
     depth = 0; closed_at = None
     for i, k in enumerate(kinds):
         if k == 'start': depth += 1
         elif k == 'end':
             if depth == 0: return 'err'                                              # stray end tag at top level: unknown tag
             depth -= 1
-        elif k in inner_names and depth == 0: return 'err'                           # else/when/elsif outside a block: unknown tag
+        elif (k in inner_names or k.endswith('_arg')) and depth == 0: return 'err'   # else/when/elsif outside a block: unknown tag
     if depth != 0: return 'err'                                                      # unclosed block
     if all(k in ('start', 'end', 'raw', 'assign') for k in kinds): return 'ok'
     return None
@@ -351,7 +353,7 @@ def ob_stdlib_blocks(chk, P, n):
         for name, struct, start_args, inner in STDLIB_BLOCKS:
             elements = block_elements(name, start_args, inner)
             inner_names = [i for i, _ in inner]
-            alphabet = ['raw', 'assign', 'invalid', 'unknown', 'start', 'end', 'end_arg'] + inner_names
+            alphabet = ['raw', 'assign', 'invalid', 'unknown', 'start', 'end', 'end_arg'] + inner_names + [i + '_arg' for i, a in inner if not a]
             for ln in range(0, n + 1):
                 for rest in itertools.product(alphabet, repeat=ln):
                     kinds = ['start'] + list(rest)
@@ -372,4 +374,162 @@ def ob_stdlib_blocks(chk, P, n):
                             role = f'parse/{name}/' + ('panic' if kind == 'panic' else 'accepts-malformed' if want == 'err' else 'rejects-well-formed')
                             ob.violation(role, f'{src!r}: {bad}', {'elements': kinds}, sc, conf)
             ob.sample({'block': name})
+        ob.absorb(ex)
+
+
+# ============================================================================ argument lists of the include tag
+def include_reference(toks):
+    """toks: kinds after the tag name. Grammar: name (id ':' value (',' id ':' value)* ','?)? -- anything else is an error"""
+    if not toks or toks[0] not in ('str', 'var', 'lit'): return 'err'
+    i = 1
+    while i < len(toks):
+        if toks[i] != 'var': return 'err'
+        if i + 2 >= len(toks) + 0 and i + 2 > len(toks) - 1 + 0: pass
+        if i + 1 >= len(toks) or toks[i + 1] != 'Colon': return 'err'
+        if i + 2 >= len(toks) or toks[i + 2] not in ('str', 'var', 'lit'): return 'err'
+        i += 3
+        if i >= len(toks): return 'ok'
+        if toks[i] != 'Comma': return 'err'
+        i += 1
+    return 'ok'
+
+
+def ob_include_arguments(chk, P, n):
+    with chk.obligation('parse/include-arguments', "the argument list of include is `name (id: value (, id: value)* ,?)?`: every other token sequence -- a stray token after an argument, a missing colon or value, "
+                        "two commas -- is rejected with an error; no panic",
+                        {'tokens': f"the partial name followed by every sequence of up to {n} tokens over [identifier, integer, string, ':', ',']"}) as ob:
+        def stub_ok(tag):
+            return lambda ctx, args, st: ret(st, Opaque((tag,)))
+        stubs = [(r'^(?:parser::)?(?:parser::)?parse_value$', stub_ok('value'), 'stub:parse_value'), (r'^(?:parser::)?(?:parser::)?parse_variable_pair$', stub_ok('variable'), 'stub:parse_variable_pair'),
+                 (r'^(?:parser::)?(?:parser::)?parse_literal$', stub_ok('literal'), 'stub:parse_literal')]
+        ex = Executor(P, models_with(stubs + parser_stubs() + registers_models())); ex.seed = chk.seed; ex.max_steps = 80000
+        P.prefer_paths = ['stdlib/']          # the stdlib IncludeTag (jekyll has a type of the same name)
+        TEXT = {'var': 'x', 'lit': '1', 'str': "'s'", 'Colon': ':', 'Comma': ','}
+        for ln in range(0, n + 1):
+            for rest in itertools.product(['var', 'lit', 'str', 'Colon', 'Comma'], repeat=ln):
+                toks = ['str'] + list(rest)
+                want = include_reference(toks)
+                text = "{%include " + ' '.join(("'p'" if i == 0 else TEXT[k]) for i, k in enumerate(toks)) + "%}"
+                elements = {'inc': ('Tag', text, 'include', [(("'p'" if i == 0 else TEXT[k]), k) for i, k in enumerate(toks)])}
+                st = State()
+                for s2, kind, val in run_parse2(ex, P, st, ['inc'], elements, None, None, real_tags={'include': 'IncludeTag'}):
+                    ob.paths += 1; ob.reached()
+                    bad = None
+                    if kind == 'panic': bad = f'panics: {val}'
+                    elif want == 'err' and val[0] != 'err': bad = 'accepted, expected an error'
+                    elif want == 'ok' and val[0] == 'err': bad = 'rejected although well formed'
+                    if bad:
+                        src = text.replace('{%', '{% ').replace('%}', ' %}')
+                        sc = {'kind': 'template', 'template': src, 'partials': {'p': 'P', 's': 'S'}, 'globals': {'x': 'p'}}
+                        conf = (lambda r: r.get('outcome') in ('panic', 'crash')) if kind == 'panic' else (lambda r: r.get('stage') != 'parse' or r.get('outcome') != 'err') if want == 'err' else (lambda r: r.get('stage') == 'parse')
+                        ob.violation('parse/include/' + ('panic' if kind == 'panic' else 'accepts-malformed' if want == 'err' else 'rejects-well-formed'), f'{src!r}: {bad}', {'tokens': toks}, sc, conf)
+            ob.sample({'tokens': ln})
+        ob.absorb(ex)
+
+
+# ============================================================================ the text an invalid token is re-parsed from
+def ob_invalid_token_text(chk, P):
+    """InvalidLiquidToken::parse_pair rebuilds `the text from the start of the token's line to the end of the input` and re-parses it strictly to
+    word the error.  The re-parse (pest) is not executable here: it is a stub that fails when the rebuilt text is exactly that suffix of the input
+    (which contains the invalid token) and may succeed or fail when the text is anything else (a character column used as a byte offset cuts the
+    prefix short, and the shortened text can parse).  Whatever the re-parse says, parse_pair must end with an error value, never a panic."""
+    with chk.obligation('parse_pair/rebuilt-text', "an invalid token always ends in an error value: building the text for the strict re-parse never panics, and when that text is not the original input "
+                        "(so that it may parse) a successful re-parse is an error too, not a panic",
+                        {'input': "[one symbolic character + newline]? + 0..2 symbolic characters (any Unicode scalar value except line breaks) + the invalid token '{' + '{ x' "}) as ob:
+        from mirsym.models.strings import valid_char, byte_len
+        from checks.C13 import eq_chars
+        captured = {}
+        def m_strict_parse(ctx, args, st, holder=captured):
+            s = st.deref_all(args[1])
+            got = list(s.chars) if isinstance(s, StrV) and s.facts is None else None
+            exact = eq_chars(got, holder['want']) if got is not None else z3.BoolVal(False)
+            perr = Adt('PestError', None, [Opaque(('variant',)), Opaque(('location',)), Adt('LineColLocation', 'Pos', [Tup([Int(1, 'usize'), Int(1, 'usize')])]),
+                                           NONE, StrV('', 'String'), NONE, NONE])
+            def g():
+                for s1, same in ctx.ex.fork_bool(st, exact):
+                    log_call(s1, 'reparse', ('exact' if same else 'different', got))
+                    yield s1, 'ret', Err(perr)
+                    if not same:
+                        s2 = s1.clone(); log_call(s2, 'reparse-ok', True)
+                        yield s2, 'ret', Ok(Opaque(('pairs',)))      # a text that is not the input may well parse
+            return g()
+        def sym_pos(src, i):
+            def h(ctx, me, args, st):
+                m = method_of(ctx.callee)
+                line_start = max([k + 1 for k in range(i) if src[k] == 10] + [0])
+                line_end = min([k + 1 for k in range(i, len(src)) if src[k] == 10] + [len(src)])
+                if m == 'line_col': return ret(st, Tup([Int(1 + sum(1 for k in range(i) if src[k] == 10), 'usize'), Int(i - line_start + 1, 'usize')]))
+                if m == 'line_of': return ret(st, st.ref(StrV(src[line_start:line_end], 'str')))
+                if m == 'span':
+                    other = st.deref_all(args[1])
+                    return ret(st, sym_span(src, i, other.data[1]))
+                if m == 'pos': return ret(st, byte_len(StrV(src[:i], 'str')))
+                if m == 'clone': return ret(st, me)
+                return None
+            return Abs('pos', h, ('pos', i))
+        def sym_span(src, a, b):
+            def h(ctx, me, args, st):
+                m = method_of(ctx.callee)
+                if m == 'start_pos': return ret(st, sym_pos(src, a))
+                if m == 'end_pos': return ret(st, sym_pos(src, b))
+                if m == 'as_str': return ret(st, st.ref(StrV(src[a:b], 'str')))
+                if m == 'get_input': return ret(st, st.ref(StrV(src, 'str')))
+                if m == 'clone': return ret(st, me)
+                return None
+            return Abs('span', h, ('span', a, b))
+        def sym_pair(src, a, b):
+            def h(ctx, me, args, st):
+                m = method_of(ctx.callee)
+                if m == 'as_rule': return ret(st, Adt('Rule', 'InvalidLiquid', []))
+                if m == 'as_span': return ret(st, sym_span(src, a, b))
+                if m == 'as_str': return ret(st, st.ref(StrV(src[a:b], 'str')))
+                if m == 'clone': return ret(st, me)
+                return None
+            return Abs('pair:InvalidLiquid', h, ('pair', 'InvalidLiquid', a, b))
+        def m_position_new(ctx, args, st, holder=captured):
+            # pest::Position::new(input, pos): Some(position) when pos is a character boundary of input; only `input.len()` is asked for here
+            src = holder['src']
+            n = args[1]
+            total = byte_len(StrV(src, 'str'))
+            same = z3.simplify(n.e == total.e)
+            if not z3.is_true(same): raise Unsupported(f'Position::new at {n!r}')
+            return ret(st, Some(sym_pos(src, len(src))))
+        stubs = [(r'^<(?:\w+::)*LiquidParser as Parser<(?:\w+::)*Rule>>::parse$', m_strict_parse, 'stub:LiquidParser::parse (captures the text; the pest parse itself is not executed)'),
+                 (r'^pest::Position::<\'_>::new$', m_position_new, 'stub:pest::Position::new(input, input.len())')]
+        ex = Executor(P, models_with(stubs + parser_stubs())); ex.seed = chk.seed; ex.max_steps = 40000
+        ob.stubs += ['pest Pair/Span/Position over a source of symbolic characters: line_col counts characters, line_of / as_str / get_input return the corresponding texts']
+        fn = P.find(r'^fn (?:\w+::)*<impl at crates/core/src/parser/parser.rs:\d+:\d+: \d+:\d+>::parse_pair\(_1: InvalidLiquidToken', 'core')
+        for first_line in (0, 1):
+            for k in range(3):
+                st = State()
+                l1 = [z3.BitVec('l1', 32)] if first_line else []
+                pre = [z3.BitVec(f'c{i}', 32) for i in range(k)]
+                for c in l1 + pre: st.assume(z3.And(valid_char(c), c != 10, c != 13))
+                src = (l1 + [10] if first_line else []) + pre + [ord('{'), ord('{'), ord(' '), ord('x')]
+                tok_at = len(src) - 4
+                captured['src'] = src
+                line_start = len(l1) + 1 if first_line else 0
+                want = src[line_start:]
+                captured['want'] = want
+                token = Adt('InvalidLiquidToken', None, [sym_pair(src, tok_at, tok_at + 1)], ['element'])
+                for s2, kind, val in ex.run(fn, [token, st.ref(mk_list_iter([]), True)], st):
+                    ob.paths += 1; ob.reached()
+                    def report(role, what, m):
+                        text = ''.join(chr(c) if isinstance(c, int) else chr(m.eval(c, model_completion=True).as_long()) for c in src)
+                        # the wrong prefix matters when the cut-off text happens to parse: put a complete output tag and an opening quote on the line
+                        # (five 2-byte characters move the cut five bytes to the left, into the string literal of the first tag)
+                        demo = "\u00e9" * 5 + "{{ 'q' }}{{ ' }}"
+                        if 'rebuilt-text-parses' not in role: demo = text          # a panic while building the text shows on the witness itself
+                        ob.violation(role, f'{what}: input {text!r}', {'input': text}, {'kind': 'template', 'template': demo}, lambda r: r.get('outcome') in ('panic', 'crash'))
+                    calls_ = [c[1] for c in calls(s2, 'reparse')]
+                    differs = bool(calls_) and calls_[0][0] == 'different'
+                    if kind == 'panic':
+                        m = ob.decide(ex, s2.conds, z3.BoolVal(True))
+                        ma = ob.decide(ex, s2.conds + [z3.ULT(c, 128) for c in l1 + pre], z3.BoolVal(True))
+                        role = 'parse_pair/panic' + ('/when-the-rebuilt-text-parses' if calls(s2, 'reparse-ok') else '') + ('' if ma is not None else '/only-with-multibyte-characters')
+                        report(role, f'parse_pair panics ({val})' + (f'; the rebuilt text {calls_[0][1]} is not the input' if differs else ''), ma if ma is not None else m); continue
+                    if kind != 'ret' or not (isinstance(val, Adt) and val.variant == 'Err'):
+                        report('parse_pair/no-error', f'parse_pair ends with {kind} {val}', ob.decide(ex, s2.conds, z3.BoolVal(True))); continue
+                    ob.decide(ex, s2.conds, z3.BoolVal(False))
+                ob.sample({'first_line': first_line, 'prefix': k})
         ob.absorb(ex)
